@@ -105,6 +105,24 @@ public:
         }
     }
 
+    void bvisit(const ConditionSet &x)
+    {
+        // the set-builder symbol is bound inside the condition
+        set_basic set_ = free_symbols(*x.get_condition());
+        set_.erase(x.get_symbol());
+        s.insert(set_.begin(), set_.end());
+    }
+
+    void bvisit(const ImageSet &x)
+    {
+        // the mapped symbol is bound inside the image expression only
+        set_basic set_ = free_symbols(*x.get_expr());
+        set_.erase(x.get_symbol());
+        s.insert(set_.begin(), set_.end());
+        set_basic base_ = free_symbols(*x.get_baseset());
+        s.insert(base_.begin(), base_.end());
+    }
+
     void bvisit(const Basic &x)
     {
         for (const auto &p : x.get_args()) {
